@@ -172,6 +172,21 @@ def below(key, top):
     return False
 
 
+def rel(key, top):
+    """the steps that lead from the object at top to its part key"""
+    steps = []
+    while key != top:
+        steps.append((key[0], key[2]))
+        key = key[1]
+    return tuple(reversed(steps))
+
+
+def rebase(top, steps):
+    for kind, name in steps:
+        top = (kind, top, name)
+    return top
+
+
 def subscript_only_arrays(*fns):
     """local arrays of integers that are used through subscripts only (arr[i]), the element neither having its address taken
     nor being bound to a reference: their elements are places of their own that nothing else can reach"""
@@ -205,10 +220,9 @@ def subscript_only_arrays(*fns):
                 # bound to a reference parameter?  told by the parameter type of a project function; a library function is
                 # taken not to have integer out-parameters (as in modifications())
                 callee = tu.by_did.get(par["callee"].get("did")) if tu is not None else None
-                if callee is not None and par["k"] == "CXXOperatorCallExpr":
-                    arrays.discard(d)
-                elif callee is not None:
-                    args = kids(par)[(1 if par.get("member_call") else 0):]
+                if callee is not None:
+                    member = par.get("member_call") or (par["k"] == "CXXOperatorCallExpr" and len(kids(par)) == len(callee.params) + 1)
+                    args = kids(par)[(1 if member else 0):]
                     i = next((i for i, a in enumerate(args) if a is x), None)
                     pty = (callee.params[i].get("ty") or "").rstrip() if i is not None and i < len(callee.params) else "&"
                     if pty.endswith("&") and not pty.endswith("&&") and not pty.startswith("const "):
@@ -252,19 +266,44 @@ class ObjSkel(skel.Skel):
                 if r is not NotImplemented:
                     return r
             key = self.lvalue(e0)
-            if key is not None and key in self.env:
+            if key is not None and key in self.env and self.env[key] is not None:
                 return self.env[key]
+            if key is not None and self.has_parts(key):
+                return self.snapshot(key)
             return self.unknown(e0, self) if self.unknown else None
-        return super().ev(e)
+        r = super().ev(e)
+        if r is None and e0 is not None and (e0["k"] == "DeclRefExpr" or match.index_parts(e0)) and not is_integer(e0.get("ty")) and \
+                any(isinstance(k, tuple) and len(k) == 3 and k[0] == "member" for k in self.env):
+            key = self.lvalue(e0)            # an object whose data members are known: its value is the values of its members
+            if key is not None and self.has_parts(key):
+                return self.snapshot(key)
+        return r
+
+    def snapshot(self, key):
+        return ("obj", tuple(sorted(((rel(k, key), v) for k, v in self.env.items() if below(k, key)), key=repr)))
+
+    def expand(self, key):
+        """the object at key was given the value of another object: its parts are the parts of that one"""
+        v = self.env.get(key)
+        if isinstance(v, tuple) and len(v) == 2 and v[0] == "obj":
+            self.env[key] = None
+            for steps, val in v[1]:
+                self.env[rebase(key, steps)] = val
 
     def has_parts(self, key):
         return any(below(k, key) for k in self.env)
 
+    lost = None
+
     def store(self, key, v):
+        if key is None and self.lost is not None:
+            self.lost.append(v)
         if key is not None:
             for k in [k for k in self.env if below(k, key)]:
                 del self.env[k]
         super().store(key, v)
+        if key is not None:
+            self.expand(key)
 
     def stmt(self, s):
         if s is not None and s["k"] == "DeclStmt":          # a new object: nothing is known about its parts
@@ -273,6 +312,10 @@ class ObjSkel(skel.Skel):
                     for k in [k for k in self.env if below(k, v.get("did"))]:
                         del self.env[k]
         super().stmt(s)
+        if s is not None and s["k"] == "DeclStmt":
+            for v in kids(s):
+                if v["k"] == "VarDecl" and v.get("did") in self.env:
+                    self.expand(v["did"])
 
     def inline(self, e, args):
         r = super().inline(e, args)
@@ -467,10 +510,11 @@ def record_element(fn, lhs):
     as vec[j] or named by a reference local bound to vec[j] (a reference is never rebound): vec[j].f, r.f"""
     decls = local_decls(fn)
     e = strip_casts(lhs)
-    fields = 0
+    fields, arrow = 0, False
     for _ in range(8):
         f = match.field_of(e)
         if f and not match.this_field(e):
+            arrow = bool(e.get("arrow"))
             e, fields = strip_casts(f[0]), fields + 1
             continue
         d = ref_of(e)
@@ -478,6 +522,12 @@ def record_element(fn, lhs):
                 kids(decls[d]) and kids(decls[d])[0] is not None:
             e = strip_casts(kids(decls[d])[0])
             continue
+        if d in decls and (decls[d].get("ty") or "").rstrip().endswith("*") and kids(decls[d]) and kids(decls[d])[0] is not None and \
+                arrow and not modifications(fn, d):
+            a = strip_casts(kids(decls[d])[0])          # p->f with a never-changed pointer local p = &vec[j]
+            if a is not None and a["k"] == "UnaryOperator" and a.get("op") == "&":
+                e = strip_casts(kids(a)[0])
+                continue
         break
     ip = match.index_parts(e)
     d = ref_of(ip[0]) if ip else None
@@ -534,6 +584,24 @@ def slab_loops(fn, stores):
     return out
 
 
+def part_stores(*fns):
+    """stores into a part of a variable (an element, a data member): [(declaration id of the variable, store node)]"""
+    out = []
+    for f in fns:
+        if f is None:
+            continue
+        for y in f.nodes():
+            b = match.binop(y) if y["k"] in ("BinaryOperator", "CompoundAssignOperator", "CXXOperatorCallExpr") else None
+            u = match.unop(y, ("++", "--")) if not b else None
+            lhs = b[1] if b and assign_op(b[0]) else (u[1] if u else None)
+            if lhs is None or ref_of(lhs) is not None:
+                continue
+            root = lvalue_root(lhs)
+            if root is not None and not isinstance(root, tuple):
+                out.append((root, y))
+    return out
+
+
 class SlabEval:
     """evaluates the per-slab integer quantities of parallel_multiway_merge_base on one point (L, S, P): a slab holding
     L elements whose first output position is P, for a requested size S.  The differences of chunk cursors are the data:
@@ -556,10 +624,17 @@ class SlabEval:
         self.inits = {d: e for d, e in stable_inits(fn, (lam,) if lam is not None else ()).items()
                       if not any(y["k"] == "DeclRefExpr" and y["ref"]["id"] in self.outer | self.loopvars for y in ir.walk(e))}
         self.own_arrays = subscript_only_arrays(fn, lam)
+        self.lost = []           # stores of the evaluated fragments whose place is not known
+        # variables of the enclosing function of which the per-slab fragment sets a part (st.last = iam, last[0] = iam)
+        self.outer_parts = set()
+        for lp, _ in self.loops:
+            inside = {x["did"] for x in ir.walk(lp) if x["k"] == "VarDecl"}
+            self.outer_parts |= {root for root, y in part_stores(fn) if inside_of(y, lp) and root not in inside and root not in self.loopvars}
 
     def skel(self, fn, env, unknown=None, event=None):
         sk = ObjSkel(fn, env, unknown, event)
         sk.own_arrays = self.own_arrays
+        sk.lost = self.lost
         return sk
 
     def point(self, L, S, P):
@@ -571,6 +646,7 @@ class SlabEval:
 
     def _point(self, L, S, P):
         merged = []
+        del self.lost[:]
 
         def chunk_elem(key):
             """the key names an element of a row of the split table: chunks[i][s]"""
@@ -651,9 +727,13 @@ class SlabEval:
             sk = self.skel(self.fn, env, unknown, event)
             sk.alg = alg
             sk.env[var] = IAM
-            sk.stmt(match.loop_parts(lp)[3])
+            try:
+                sk.stmt(match.loop_parts(lp)[3])
+            except (skel._Break, skel._Continue):
+                pass             # this slab's round of the loop ends here
             env = sk.env
         slab_env = dict(env)
+        lost = bool(self.lost)
         ctx = self.lam if self.lam is not None else None
         if ctx is not None:
             sk = self.skel(ctx, env, unknown, event)
@@ -668,8 +748,8 @@ class SlabEval:
             raise dtable.Undecidable("%s: a worker starts more than one merge" % self.fn.loc)
         if merged:
             m = merged[0]
-            return dict(pos=m["pos"], length=m["length"], called=True, env=slab_env, call=m["call"], begin=m["begin"], end=m["end"])
-        return dict(pos=None, length=0, called=False, env=slab_env, call=None, begin=None, end=None)
+            return dict(pos=m["pos"], length=m["length"], called=True, env=slab_env, call=m["call"], begin=m["begin"], end=m["end"], lost=lost)
+        return dict(pos=None, length=0, called=False, env=slab_env, call=None, begin=None, end=None, lost=lost)
 
 
 GRID = [(L, S, P) for L in range(0, 4) for S in range(0, 7) for P in range(0, 9)]
@@ -680,13 +760,14 @@ def call_free(e):
     return all("callee" not in y and y["k"] not in ("LambdaExpr", "CXXNewExpr") for y in ir.walk(e))
 
 
-def last_active_slab(fn, slab, se, lam):
+def last_active_slab(fn, slab, se, lam, g):
     """the slab whose cursors are handed back must be one that merged something: its index expression, evaluated in the
     state the per-slab fragment leaves behind, is the slab's own index exactly when the slab merges at least one element
     -> (True, "") | (False, reason) ; undecidable if the expression is not a function of what the fragment sets"""
     refs = {y["ref"]["id"] for y in ir.walk(slab) if y["k"] == "DeclRefExpr"}
     also = (lam,) if lam is not None else ()
-    if not refs & se.outer:
+    parts = part_stores(fn, lam)
+    if not refs & (se.outer | se.outer_parts):
         # nothing in the expression is set per slab: a fixed slab - if the expression is closed (no call could compute the
         # last active slab) and none of its variables is set somewhere else from the slab quantities
         if not call_free(slab):
@@ -697,17 +778,34 @@ def last_active_slab(fn, slab, se, lam):
             decl = [v for v in fn.nodes() if v["k"] == "VarDecl" and v.get("did") == d]
             if decl and kids(decl[0]) and kids(decl[0])[0] is not None and not call_free(kids(decl[0])[0]):
                 raise undecided(fn, decl[0], "the slab whose cursors are handed back is initialised by a call")
-            if decl and modifications(fn, d, also):
+            if decl and (modifications(fn, d, also) or any(root == d for root, _ in parts)):
                 raise dtable.Undecidable("%s: %s is set outside the per-slab loop" % (fn.loc, dtable.describe(slab)))
         if ref_of(slab) is None:
             return False, "which is a fixed slab (%s)" % dtable.describe(slab)
         return False, "which is never set to the last active slab"
+    # what the expression reads is set by the per-slab fragment (which is evaluated) or before it - nowhere else
+    heads = [g.pos_deep(match.loop_parts(lp)[1] if match.loop_parts(lp)[1] is not None else lp) for lp, _ in se.loops]
+    for d in refs & (se.outer | se.outer_parts):
+        for m in list(modifications(fn, d, also)) + [y for root, y in parts if root == d]:
+            if any(inside_of(m, lp) for lp, _ in se.loops):
+                continue
+            pm = g.pos_deep(m) if inside_of(m, fn.body) else None
+            if pm is None or any(h is None or g.reachable(h, pm) for h in heads):
+                raise undecided(fn, m, "the slab whose cursors are handed back (%s) is also set outside the per-slab loops" % dtable.describe(slab))
     for L, S, P in GRID:
         r = se.point(L, S, P)
         if r["called"] and not isinstance(r["length"], int):
             raise dtable.Undecidable("%s: length of the per-thread merge not understood" % fn.loc)
         d = ref_of(slab)
-        got = r["env"].get(d) if d is not None else se.skel(fn, r["env"]).ev(slab)
+        if d is not None:
+            got = r["env"].get(d)
+        else:
+            sk = se.skel(fn, r["env"])
+            got = sk.ev(slab)
+            k = sk.lvalue(slab) if got is None and not r["lost"] else None
+            if isinstance(k, tuple) and len(k) == 3 and key_root(k) in se.outer_parts and k not in r["env"] and \
+                    not any(below(k, a) for a in r["env"]):
+                got = UNSET          # a part that this slab did not set (every store of the fragment has a known place)
         if got is None or isinstance(got, bool) or not (got == UNSET or isinstance(got, int)):
             raise undecided(fn, slab, "value of the slab index after the per-slab fragment not understood")
         if got != UNSET and got != IAM:
@@ -789,9 +887,14 @@ def zero_length(ck, fn, g, tag, sizep, splits):
     # a never-changed local stands for its initialiser only if the initialiser means the same wherever the local is used
     inits = {d: e for d, e in inits.items() if d not in flags and not any(y["k"] == "DeclRefExpr" and y["ref"]["id"] in flags for y in ir.walk(e))}
 
+    DATA = "data"        # state of a flag that was last set from data alone: a test of it goes either way
+
+    def on_size_now(e, state):
+        return e is not None and any(y["k"] == "DeclRefExpr" and y["ref"]["id"] in tainted and state.get(y["ref"]["id"]) != DATA for y in ir.walk(e))
+
     def value(e, state):
         env = {sizep: 0}
-        env.update(state)
+        env.update({d: v for d, v in state.items() if v != DATA})
         try:
             v = skel.Skel(fn, env, lambda x, sk: None if ref_of(x) in flags else unknown(x, sk)).ev(e)
         except (dtable.Undecidable, skel.Diverges, skel.Return):
@@ -831,6 +934,8 @@ def zero_length(ck, fn, g, tag, sizep, splits):
                     continue
                 for d, src in sets:
                     val = value(src, state) if src is not None else None
+                    if val is None and src is not None and not on_size_now(src, state):
+                        val = DATA
                     if val is None:
                         state.pop(d, None)
                     else:
@@ -847,7 +952,7 @@ def zero_length(ck, fn, g, tag, sizep, splits):
                     v = value(leaf, state)
                     if v is not None:
                         nxt = [succ[0] if v else succ[1]]
-                    elif on_size(leaf) and not walls_open:
+                    elif on_size_now(leaf, state) and not walls_open:
                         nxt = []         # a test of size that cannot be evaluated: a wall
             st2 = frozenset(state.items())
             for x in nxt:
@@ -1173,7 +1278,7 @@ def check_base(ck, tu, fn):
         ck.violation("ADVANCE-EXACT", fn.qname, tag, "inputs are advanced to chunks[%s].%s: the end of a slab, not the position up to which it was merged "
                      "(with sampling splitting and size < total the inputs appear fully consumed)" % (dtable.describe(slab), member), fn.nloc(x))
     else:
-        slab_ok, why = last_active_slab(fn, slab, se, lam)
+        slab_ok, why = last_active_slab(fn, slab, se, lam, g)
         if not slab_ok:
             ck.violation("ADVANCE-EXACT", fn.qname, tag + ":slab", "inputs are advanced to the cursors of slab %s, %s: with sampling splitting the trailing slabs can start "
                          "behind `size` and merge nothing, their cursors are then ahead of the merged position" % (dtable.describe(slab), why), fn.nloc(x))
